@@ -309,7 +309,7 @@ pub fn run_fault<K: HKey>(case: &FaultCase, is_known: &(dyn Fn(&str) -> bool + S
     std::fs::create_dir_all(&work).expect("harness: mkdir work");
     let mut meta = CaseMeta::default();
     let case_hash = hash_json(&(&case.cfg, &case.ops, case.enospc));
-    let script = Script { cfg: case.cfg.clone(), asyn: case.cfg.asyn, cleanup: false, ops: case.ops.clone(), dump: true };
+    let script = Script { cfg: case.cfg.clone(), asyn: case.cfg.asyn, cleanup: false, ops: case.ops.clone(), dump: true, pre_create: false };
     // dry run: number of eligible calls
     let db0 = scratch.path.join("db0");
     std::fs::create_dir_all(&db0).expect("harness: mkdir");
